@@ -510,3 +510,22 @@ Proof.
     destruct (Hind z Hz) as [N|S]; rewrite ?N, ?S; cbn [ele]; [exact I | lra]. }
   rewrite F. f_equal. apply (proxs_unique (fdim e) (fval e) (metric (fweights e) (sig_flat e s)) p); auto.
 Qed.
+
+(* ---- FunctionalDefaultConvexConjugate(f).proximal = proximal_convex_conj(f.proximal) for every well-formed tree f:
+        it is the proximal point of ANY functional fs that is the convex conjugate of f's value (w.r.t. the inner
+        product of f's own space) ---- *)
+Theorem fprox_default_convex_conj (e : fexprR) (fs : Rvec -> option R) (sigma : R) (x : Rvec) :
+  wf e -> 0 < sigma -> length x = fdim e ->
+  is_conj (fdim e) (fweights e) (fval e) fs ->
+  exists p, prox_convex_conj (fprox e) (SScal sigma) x = Ok p /\
+            is_proxs (fdim e) fs (metric (fweights e) (repeat sigma (fdim e))) x p.
+Proof.
+  intros W Hs Hx Hc.
+  assert (Hi : 0 < 1 / sigma) by (apply Rdiv_lt_0_compat; lra).
+  destruct (fprox_proxs_all e W (SScal (1 / sigma)) (vscal (1 / sigma) x) (sig_ok_scal e W _ Hi) ltac:(auto with vlen))
+    as (q & Eq & Pq).
+  rewrite sig_flat_scal in Pq.
+  exists (vsub x (vscal sigma q)). split.
+  - cbn [prox_convex_conj]. numR. rewrite Eq. reflexivity.
+  - apply (rule_moreau (fdim e) (fval e)); auto. apply fweights_allpos; assumption.
+Qed.
